@@ -27,7 +27,7 @@ NAMES = {"2^31": HARDENED}
 def c08_1(ctx):
     mod, fn = rl.get(ctx, "hd:HDPublicKey.child")
     p = param_names(fn)[1]
-    return rl.accept_set(ctx, "hd:HDPublicKey.child", [p], ISet.range(0, HARDENED - 1), NAMES, targets="returns", prefer=(HARDENED, -1))
+    return rl.accept_set(ctx, "hd:HDPublicKey.child", [p], ISet.range(0, HARDENED - 1), NAMES, targets="returns", prefer=(HARDENED - 1, HARDENED, -1), exact=True)
 
 
 def c08_2(ctx):
